@@ -320,6 +320,57 @@ fn check_doc(run: &Run, c: &DocCase, counts: &mut Counts) -> bool {
             }
         }
     }
+    // a stream read through the iterator over a reader: positions are stream-absolute in the
+    // same way (no byte info there); every delivered location must agree with from_multiple's
+    if c.multi && !c.text.starts_with('\u{FEFF}') {
+        run.eval();
+        let got = vcore::obs::catch(|| {
+            let mut cur = std::io::Cursor::new(c.text.as_bytes());
+            serde_saphyr::read_with_options::<_, SNode>(&mut cur, opts()).collect::<Vec<_>>()
+        });
+        match got {
+            Err(p) => viol(run, &format!("C16:panic:{}", vcore::obs::panic_site(&p)), case_json(c, json!({"entry": "read"})), p),
+            Ok(items) => {
+                if items.len() == sts.len() && items.iter().all(|r| r.is_ok()) {
+                    bump(counts, "read_iterator_streams_compared");
+                    for (k, (a, b)) in items.iter().zip(sts.iter()).enumerate() {
+                        let a = a.as_ref().unwrap();
+                        let (ra, rb) = (collect(a), collect(b));
+                        if ra.len() != rb.len() {
+                            run.inconclusive("read iterator delivered a differently shaped tree than from_multiple");
+                            continue;
+                        }
+                        for (x, y) in ra.iter().zip(rb.iter()) {
+                            for (which, l, m) in [("referenced", &x.referenced, &y.referenced), ("defined", &x.defined, &y.defined)] {
+                                bump(counts, "read_iterator_locations_checked");
+                                if (l.line(), l.column(), l.span().offset()) == (m.line(), m.column(), m.span().offset()) {
+                                    continue;
+                                }
+                                // known class: the streaming input of the parser advances the char index by the
+                                // byte length of a comment, so offsets after a comment with multi-byte text run ahead
+                                let (lo, mo) = (l.span().offset() as usize, m.span().offset() as usize);
+                                let prefix: String = stripped.chars().take(mo).collect();
+                                let excess: usize = prefix.chars().map(|ch| ch.len_utf8() - 1).sum();
+                                let sig = if (l.line(), l.column()) == (m.line(), m.column()) && lo > mo && lo - mo <= excess && prefix.contains('#') {
+                                    "C16:reader:char-offset-counts-bytes-of-multibyte-comment"
+                                } else {
+                                    "C16:read-iterator-location-differs-from-from_multiple"
+                                };
+                                viol(
+                                    run,
+                                    sig,
+                                    case_json(c, json!({"entry": "read", "doc": k, "path": x.path})),
+                                    format!("{which} of node {:?} of document {k}: read gives [{}], from_multiple [{}]", x.path, loc_str(l), loc_str(m)),
+                                );
+                            }
+                        }
+                    }
+                } else {
+                    bump(counts, "read_iterator_streams_not_comparable");
+                }
+            }
+        }
+    }
     let mut all = true;
     for (k, ((root, x), st)) in roots.iter().zip(xs.iter()).zip(sts.iter()).enumerate() {
         let toks = c.tokens.and_then(|t| t.get(k)).map(|v| v.as_slice());
@@ -365,6 +416,8 @@ fn check_one(
     bump(counts, "docs_checked");
     let pre = pre_order(root);
     let mut stats = LocStats::default();
+    // nodes whose `referenced` already failed its own check: no error = span comparison on them
+    let mut ref_failed: Vec<Vec<usize>> = Vec::new();
 
     for m in &matched {
         let st = m.st;
@@ -426,7 +479,25 @@ fn check_one(
         // (3) referenced == use site
         let roff = st.referenced.span().offset() as usize;
         if !through {
-            if st.referenced != st.defined {
+            if st.referenced != st.defined
+                && let Some(k) = m.inside_key
+                && same_pos(&st.referenced, &k.referenced)
+            {
+                viol(
+                    run,
+                    "C16:referenced:node-inside-in-place-complex-key-reports-key-start",
+                    case_json(c, at()),
+                    format!(
+                        "node {:?} is written in place inside a complex key, but referenced [{}] is the key's start, defined [{}]",
+                        m.path,
+                        loc_str(&st.referenced),
+                        loc_str(&st.defined)
+                    ),
+                );
+                ok = false;
+                ref_failed.push(m.path.clone());
+            } else if st.referenced != st.defined {
+                ref_failed.push(m.path.clone());
                 viol(run, 
                     "C16:referenced:in-place-node-differs-from-defined",
                     case_json(c, at()),
@@ -603,6 +674,9 @@ fn check_one(
         }
         if m.is_key && !m.x.chain.is_empty() {
             continue; // span side unspecified (see above)
+        }
+        if ref_failed.contains(&m.path) {
+            continue;
         }
         for &w in c.typed_wants {
             if let Some((_, ow)) = &c.only
@@ -1137,7 +1211,8 @@ fn main() {
         let mut toks = vec![toks];
         // sometimes: a stream of two documents (locations in the second one)
         let multi = rng.chance(1, 6);
-        if multi {
+        let extra_docs = if multi { rng.range(1, 3) } else { 0 };
+        for _ in 0..extra_docs {
             let (tree2, used_block2) = {
                 let mut g = docgen::Gen::new(&mut rng);
                 g.allow_block_scalars = allow_block;
@@ -1193,7 +1268,7 @@ fn main() {
                 bump(&mut counts, "random_docs_with_alias_or_merge");
             }
             if multi {
-                bump(&mut counts, "random_two_document_streams");
+                bump(&mut counts, "random_multi_document_streams");
             }
         }
         if i % 97 == 0 {
